@@ -486,6 +486,25 @@ def _foreign_flag_writes(db: ProgramDB, ev_fns: Set[str]) -> List[Instance]:
                     if not read:
                         continue
                     undone = t.attr in reset_self or any(t.attr in reset_foreign.get(k.name, set()) for k in f.cls.mro)
+                    if undone and t.attr not in reset_self:
+                        # the reset withdraws the flag from exactly the nodes this evaluation gave it to: the collection it walks
+                        # is the one the setter records the node in
+                        recorded = {unparse(c.func.value) for c in own_nodes(f.node) if isinstance(c, ast.Call) and call_attr(c) in ("append", "add")
+                                    and c.args and unparse(c.args[0]) == unparse(t.value)}
+                        walked = set()
+                        for r in resets:
+                            if not any(k.name == r.cls.name for k in f.cls.mro):
+                                continue
+                            for l in own_nodes(r.node):
+                                if isinstance(l, ast.For) and any(isinstance(a2, ast.Assign) and any(isinstance(tt, ast.Attribute) and tt.attr == t.attr
+                                                                  for tt in a2.targets) for a2 in ast.walk(l)):
+                                    walked.add(unparse(l.iter))
+                        if recorded and walked and not (recorded & walked):
+                            out.append(inst("EVAL-STATE-RESET", VIOLATION, f, f"{f.short}[{unparse(t)} = {unparse(n.value)}]",
+                                            f"the reset withdraws `{t.attr}` from `{sorted(walked)[0]}`, not from `{sorted(recorded)[0]}` where evaluation "
+                                            f"records the nodes it set it on: nodes that have the flag for another reason (a variable declared "
+                                            f"inferred by infer()) lose it after the first evaluation", line=n.lineno))
+                            continue
                     out.append(inst("EVAL-STATE-RESET", HOLDS if undone else VIOLATION, f, f"{f.short}[{unparse(t)} = {unparse(n.value)}]",
                                     f"the flag set on another node during evaluation is withdrawn by a reset" if undone else
                                     f"`{unparse(n)}` sets a flag on another node (a selected variable shared with other queries) during "
